@@ -73,3 +73,29 @@ Fixpoint bd_marker_ok (hd hc : nat) (chron : list event) (seen : bool) : bool :=
     if Nat.eqb (ev_hook e) hc then seen && bd_marker_ok hd hc r seen
     else bd_marker_ok hd hc r (seen || (Nat.eqb (ev_hook e) hd && match ev_data e with None => true | Some _ => false end))
   end.
+
+(* ---- helpers for the Examples of Props/Properties_C06.v ---- *)
+Require Coq.Strings.String Coq.Strings.Ascii.
+Fixpoint bd_str (s : String.string) : bytes :=
+  match s with
+  | String.EmptyString => []
+  | String.String a r => N.of_nat (Ascii.nat_of_ascii a) :: bd_str r
+  end.
+(* executable form of the invariant the theorems start from (Proof/PBodyReq.v: bd_rq_inv) *)
+Definition bd_rq_invb (i : nat) (c : connp) : bool :=
+  match c_in_tx c with Some j => Nat.eqb j i | None => false end &&
+  match tx_slot c i with Some t => Nat.eqb (t_hook_request_body t) 0 | None => false end &&
+  match k_receiver_hook (c_in c) with None => true | Some _ => false end &&
+  match k_header (c_in c) with None => true | Some _ => false end &&
+  negb (c_in_status c =? c_HTP_STREAM_TUNNEL) &&
+  match k_data (c_in c) with
+  | Some d => Nat.eqb (k_len (c_in c)) (length d) && Nat.leb (k_read (c_in c)) (length d)
+  | None => false
+  end.
+Definition bd_rq_cleanb (c : connp) : bool :=
+  Nat.eqb (k_consume (c_in c)) (k_read (c_in c)) && match k_buf (c_in c) with None => true | Some _ => false end.
+(* text lines, each terminated by CRLF *)
+Definition bd_lines (l : list String.string) : bytes := concat (map (fun s => bd_str s ++ bd_CRLF) l).
+(* payload bytes of hook h over a list of per-call event lists (oldest first), in order of delivery *)
+Definition bd_log_delivered (h : nat) (log : list (list event)) : bytes :=
+  concat (map bd_ev_bytes (filter (fun e => Nat.eqb (ev_hook e) h) (concat log))).
